@@ -88,6 +88,7 @@ func newInterpreter(prog *ssa.Program, ctx *pathCtx) *interpreter {
 func (fr *frame) runtimePanic(msg string) {
 	if fr != nil {
 		fr.i.ctx.lastPanicSite = fr.fn.String()
+		fr.i.ctx.lastPanicStack = fr.stack()
 	}
 	panic(targetPanic{v: runtimeErr{msg}})
 }
@@ -131,7 +132,17 @@ func (i *interpreter) ensureInit(pkg *ssa.Package) {
 		i.initPkgStack = i.initPkgStack[:len(i.initPkgStack)-1]
 	}()
 	i.ctx.w.intr["<pkginit> "+pkg.Pkg.Path()]++
-	callSSA(i, nil, token.NoPos, initFn, nil, nil)
+	func() {
+		defer func() {
+			if r := recover(); r != nil {
+				if tp, ok := r.(targetPanic); ok {
+					panic(engineAbort{"UNSUPPORTED", "package initialiser of " + pkg.Pkg.Path() + " panicked under the engine: " + panicMessage(tp) + " | " + i.ctx.lastPanicStack})
+				}
+				panic(r)
+			}
+		}()
+		callSSA(i, nil, token.NoPos, initFn, nil, nil)
+	}()
 }
 
 func (fr *frame) get(key ssa.Value) value {
@@ -288,6 +299,7 @@ func visitInstr(fr *frame, instr ssa.Instruction) continuation {
 
 	case *ssa.Panic:
 		fr.i.ctx.lastPanicSite = fr.fn.String()
+		fr.i.ctx.lastPanicStack = fr.stack()
 		panic(targetPanic{fr.get(instr.X)})
 
 	case *ssa.Send:
@@ -575,6 +587,15 @@ func callSSA(i *interpreter, caller *frame, callpos token.Pos, fn *ssa.Function,
 		runFrame(fr)
 	}
 	return fr.result
+}
+
+func (fr *frame) stack() string {
+	var sb strings.Builder
+	for f, n := fr, 0; f != nil && n < 25; f, n = f.caller, n+1 {
+		sb.WriteString(f.fn.String())
+		sb.WriteString(" <- ")
+	}
+	return sb.String()
 }
 
 func depthOf(fr *frame) int {
